@@ -94,7 +94,7 @@ def run(ctx, model_ok=True):
             continue
         S = rand_subset(rng, n)
         sys_arg = S[0] if len(S) == 1 and rng.integers(2) else S
-        dtype = str(rng.choice(["int64", "float64", "complex128", "object"]))
+        dtype = str(rng.choice(["int64", "float64", "complex128", "object", "uint8", "int16", "bool"]))   # narrow integer dtypes: sums must not wrap
         check(ctx, dims, sys_arg, str(rng.choice(["list", "array"])), dtype)
     # many subsystems (most of dimension 1): the kept subsystems must stay in their original order for any n
     for it in range(120 if quick else 600):
